@@ -15,6 +15,32 @@ CLAIMED = {
         design="8 C19"),
 }
 
+CLAIMED["C01"] = dict(
+    text="Coq theorems: the operator table of the model equals the table regenerated from /repo; the shunting-yard machine parses the token "
+         "sequence of every precedence-respecting expression tree (unbounded nesting, '|' parts, two-sided) to that tree; the operator semantics "
+         "satisfy the documented identities for all ordered term sets; degree ordering is a stable sort. The full pipeline model is evaluated in "
+         "Coq on every generated formula and must equal the implementation's term lists; an independent evaluator of the documented algebra over "
+         "the generator's own trees is the direct oracle.",
+    note="Coq kernel + vm_compute; translator for the operator table; hand-written pipeline model tied by correspondence; ast.unparse/required_variables oracles; end-to-end print->denotation theorem not mechanised",
+    technique="Coq proof (induction over expression trees on a shunting-yard machine model; algebraic identities) + generated operator table + in-Coq correspondence",
+    design="8 C01")
+CLAIMED["C14"] = dict(
+    text="The complete parsing pipeline is a total Gallina function with one error constructor per Python exception class; theorems (all strings, "
+         "all flag subsets, all classifiers): the AST builder raises only the syntax error; an internal exception escapes only as the recorded "
+         "KeyError finding; a plain SyntaxError only when a Python fragment is invalid. The model must return the implementation's exact outcome "
+         "(terms or exception class) on grammar strings, mutations, token soup and all short strings.",
+    note="Coq kernel + vm_compute; Python-fragment validity is an oracle; MULTISTAGE results not modelled; stuck marker (class 5) for ill-sorted operands not proved unreachable",
+    technique="Coq proof of error-constructor unreachability over a total parser model + exhaustive short-string and generated correspondence",
+    design="8 C14")
+CLAIMED["C15"] = dict(
+    text="Tokenizer state machine with spans in Gallina; theorems for every classifier: whitespace at a top-level token boundary changes no token "
+         "and no parsed formula; backtick names are one NAME token with exactly the quoted characters; spans are ordered and disjoint (given no empty "
+         "top-level quote, a recorded finding). ASCII classes and the tokenizer's literal character sets are regenerated from /repo each run and "
+         "tied by theorem; tokens with spans are compared on random strings; metamorphic whitespace / name / Python-formatting oracles run on the implementation.",
+    note="Coq kernel + vm_compute; regex classes of non-ASCII code points and ast.unparse are oracles; span-delimits-text only by oracle/correspondence",
+    technique="Coq proof (simulation up to spans, invariants over the character loop) + generated character tables + in-Coq correspondence",
+    design="8 C15")
+
 NOT_YET = {}
 
 
